@@ -28,6 +28,7 @@ mod c14;
 mod c15;
 mod c16;
 mod c18;
+mod c20;
 
 pub struct Args {
     pub cmd: String,
@@ -92,6 +93,7 @@ fn main() {
         "c15" => c15::run(&a),
         "c16" => c16::run(&a),
         "c18" => c18::run(&a),
+        "c20" => c20::run(&a),
         other => {
             eprintln!("unknown subcommand {other}");
             std::process::exit(2)
